@@ -1,0 +1,31 @@
+//go:build verif
+
+// Contracts for PersistentBlockList, part 3: restoring the list from the
+// persistent state after a restart (properties C02, C03). Comment-only file.
+package local
+
+// Every restored block resumes exactly where the state file says its durable
+// data ends: written, synchronising and synchronised offsets all start at the
+// persisted write offset (anything less would let later uploads overwrite
+// acknowledged data, or let a later state file claim less than what is
+// durable); all restored epochs count as synchronised; blocks are restored in
+// order up to the first one the allocator does not know.
+//@ func NewPersistentBlockList
+//@   opt contents persistentBlockInfo
+//@   requires blockAllocator != nil && (forall k :: 0 <= k && k < len(initialBlocks) ==> initialBlocks[k] != nil)
+//@   ensures [restored-in-order] result0 != nil && result1 == len(result0.blocks) && result1 <= len(initialBlocks)
+//@   ensures [offsets-resume-at-the-persisted-offset] forall i :: 0 <= i && i < len(result0.blocks) ==>
+//@         result0.blocks[i].writtenOffsetBytes == initialBlocks[i].WriteOffsetBytes
+//@         && result0.blocks[i].synchronizingOffsetBytes == initialBlocks[i].WriteOffsetBytes
+//@         && result0.blocks[i].synchronizedOffsetBytes == initialBlocks[i].WriteOffsetBytes
+//@   ensures [restored-epochs-are-synchronised] result0.synchronizingEpochs == len(result0.epochHashSeeds)
+//@         && result0.synchronizedEpochs == len(result0.epochHashSeeds) && result0.oldestEpochID == initialOldestEpochID
+//@   ensures [open-for-writing] !result0.closedForWriting && result0.totalBlocksReleased == 0
+//@   loop 0 invariant -1 <= rangeindex0 && rangeindex0 < len(initialBlocks) && len(bl.blocks) == rangeindex0 + 1
+//@         && (forall k :: 0 <= k && k < len(initialBlocks) ==> initialBlocks[k] != nil && unchanged(initialBlocks[k].WriteOffsetBytes))
+//@         && fresh(bl) && !bl.closedForWriting && bl.totalBlocksReleased == 0
+//@   loop 0 invariant forall i :: 0 <= i && i < len(bl.blocks) ==>
+//@         bl.blocks[i].writtenOffsetBytes == initialBlocks[i].WriteOffsetBytes
+//@         && bl.blocks[i].synchronizingOffsetBytes == initialBlocks[i].WriteOffsetBytes
+//@         && bl.blocks[i].synchronizedOffsetBytes == initialBlocks[i].WriteOffsetBytes
+//@   loop 1 invariant -1 <= rangeindex1
